@@ -29,3 +29,9 @@ claim('C11', 'exploration', 'random trees x generated and systematically broken 
       'cfg_getopt/cfg_getsec is compared (by position) with step-by-step navigation; by-path setters and cfg_rmsec must change exactly that object; 12 classes of broken paths must yield '
       'not-found, terminate and change nothing. The path mini-language is small but has its own tokenizer; randomised trees with systematic path derivation is the level that reaches its corners.',
       'Trusts: the generator\'s knowledge of which broken variants cannot resolve (names with a suffix that does not exist, indices >= size, ...); trees are random, not exhaustive.')
+
+claim('C05', 'exploration', 'metamorphic print->parse->print relations between executions of the real code on random schemas and states (no model; ASan+UBSan build)',
+      'States are produced by random accepted texts followed by random setter sequences (strings and titles over all bytes 1..255, forced quotes, backslashes, $, braces, comment markers, '
+      'newlines); the printed text must be accepted by a fresh context of the same schema and give an equal tree, the second print must equal the first (annotations off) and the third the second. '
+      'Both sides of every comparison are the library itself, so the oracle cannot be stricter than the code; randomised exploration is the level because the state space is unbounded.',
+      'Trusts: the tree comparison (strings bytewise, ints/bools exact, floats after %f); states excluded by the statement are not generated (functions, pointers, deprecated, NULL list strings, removed single sections).')
